@@ -22,6 +22,8 @@ func TestProp(t *testing.T) {
 		"terminal-for-one-then-traffic-for-another-on-same-conn", "cancel-of-one-then-traffic-for-another-on-same-conn",
 		"twin:compared", "sse", "ws:graphql-ws", "ws:graphql-transport-ws", "drop:hit-established-subscription", "idle>0", "ws-tuples-differ-only-in-a-later-header-value",
 		"own-deadline-passed-during-subscribe-while-another-same-tuple-subscribe-in-flight",
+		"survivor-waited-through>=3-abandoned-dials", "handler:cancel-self-on-shared-connection", "handler:cancel-other-on-same-connection",
+		"handler:blocked-while-another-subscriber-of-its-connection-cancels", "handler:blocked-while-another-subscribes-to-its-tuple",
 		"ping:subscription-on-silent-connection", "ping:subscription-on-healthy-connection-with-traffic")
 	// A failing liveness clause costs watch+2*grace per attempt; keep shrinking from multiplying that.
 	_ = flag.Set("rapid.shrinktime", "8s")
